@@ -295,7 +295,7 @@ def build():
     return m
 
 
-HOOK_COMMITS = ['1bd1220', '739be0d', '18d954b', '6197617', '224d070']
+HOOK_COMMITS = ['1bd1220', '739be0d', '18d954b', '6197617', '224d070', 'f292e61']
 
 if __name__ == '__main__':
     m = build()
